@@ -8,6 +8,14 @@
  * dump of the raw DFTAG_RI element (plain storage), GRgetiminfo, palette writes/reads (valid 256x3 uint8 and
  * shapes the API must refuse), GRreqlutil, GRgetlutinfo.
  *
+ * SEVERAL RI IDS ON ONE IMAGE (about half of the cases): the image is open through up to three ids at once (the GRcreate
+ * id plus GRselect ids, or several GRselect ids after a reopen); all ids are atoms for one ri_info_t, so they are views of
+ * ONE image state. Every call (FILL_ATTR, GRsetcompress, GRsetchunk, region writes and reads, GRreqimageil, palette,
+ * a user attribute) goes through a randomly chosen open id; ids are added (GRselect) and released (GRendaccess) between
+ * the calls while the others keep working - also the id that wrote the FIRST data of a new image, also the last open id
+ * (then the element's access id is closed and a compressed image is flushed); a released id must be refused. The
+ * shadow is one array per image whatever id is used.
+ *
  * T lines (replayed by the Lean model H4.GRegion through H4.Driver.GR):
  *   T gr create W H ncomp nt il => ok            T gr setfill <hex pixel>        => ok
  *   T gr setcomp => ok                           T gr setchunk                   => ok
@@ -17,9 +25,14 @@
  *   T gr raw => <hex of the DFTAG_RI element>|none      (placement, not only net effect)
  *   T gr wlut ncomp nt il n <hex> => ok|fail     T gr reqlutil il => ok|fail
  *   T gr rlut => <hex 768 bytes>                 T gr lutinfo => ncomp,nt,il,nentries
+ *   T gr select k => ok      (GRselect into handle k of the model)      T gr endaccess k => ok|fail
+ *   T gr use k => ok         (the following calls go through handle k; through a released handle they must fail)
  *
  * Oracles (implementation only, shadow H x W x ncomp array in MEMORY byte order, independent of the model):
  *   gr-read-data            a read returned something else than the last written components / the fill value
+ *                           (through whichever id the data were written and are read)
+ *   gr-stale-id:<op>        a call through an id that was released with GRendaccess succeeded
+ *   gr-attr-data            a user attribute set through one id is not what another id / the next session reads
  *   gr-first-write-fill     after the first partial write a never-written pixel is not the fill value (whole-image read)
  *   gr-valid-rejected:<op>  a valid request returned FAIL
  *   gr-range-unchecked:<op> a request reaching outside the image (or with stride/count < 1, start < 0) succeeded
@@ -54,7 +67,14 @@ static uint8_t shadow[MAXW][MAXW][MAXPSZ]; /* [y][x][memory-format pixel] */
 static uint8_t fillpix[MAXPSZ];
 static int have_lut;
 static uint8_t lut_shadow[768];
-static int32 fid = FAIL, grid = FAIL, riid = FAIL;
+static int32 fid = FAIL, grid = FAIL, riid = FAIL; /* riid = the id the next call goes through = slot[cur] */
+#define NSLOT 3
+static int32 slot[NSLOT];  /* RI ids of the one image; a released id is kept to probe that it is refused */
+static int sopen[NSLOT];   /* slot holds an open id */
+static int cur;            /* current slot */
+static int multi;          /* case uses several ids at once */
+static int have_attr, attr_n;
+static int32 attr_shadow[4];
 static char fname[800];
 static int plain, chunked, compressed;
 static int any_write;
@@ -84,6 +104,101 @@ static const char *errtxt(void)
     return b;
 }
 
+
+static int nopen(void) { int n = 0; for (int i = 0; i < NSLOT; i++) n += sopen[i]; return n; }
+
+/* the following calls go through handle k */
+static void use_slot(int k)
+{
+    if (k == cur) return;
+    cur = k; riid = slot[k];
+    printf("T gr use %d => ok\n", k);
+}
+
+/* several ids: the next call goes through a randomly chosen open id */
+static void pick_slot(void)
+{
+    if (!multi || nopen() < 2 || !hk_chance(65)) return;
+    int k;
+    do k = (int)hk_range(0, NSLOT - 1); while (!sopen[k]);
+    use_slot(k);
+}
+
+/* GRselect of the image into the free handle k */
+static int select_slot(int k)
+{
+    slot[k] = GRselect(grid, 0);
+    if (slot[k] == FAIL) { hk_fail("gr-api:GRselect", "handle %d: %s", k, errtxt()); return 0; }
+    sopen[k] = 1;
+    if (k == cur) riid = slot[k];
+    printf("T gr select %d => ok\n", k);
+    return 1;
+}
+
+/* GRendaccess of handle k; the other ids of the image stay valid */
+static void end_slot(int k)
+{
+    intn rc = GRendaccess(slot[k]);
+    if (rc == FAIL) { hk_fail(native_case ? "gr-native-alias:GRendaccess" : "gr-api:GRendaccess", "%s", errtxt()); if (native_case) poisoned = 1; }
+    if (!poisoned) printf("T gr endaccess %d => %s\n", k, rc == FAIL ? "fail" : "ok");
+    sopen[k] = 0;
+    hk_stat(nopen() ? "endaccess_others_open" : "endaccess_last", 1);
+}
+
+/* a released id must be refused (and the refusal must not disturb the image the other ids still work on) */
+static void probe_stale(int k)
+{
+    int back = cur;
+    int32 s[2] = {0, 0}, c[2] = {1, 1};
+    uint8_t buf[MAXPSZ];
+    if (poisoned) return;
+    use_slot(k);
+    if (hk_chance(50)) {
+        memset(buf, 0x33, sizeof buf);
+        intn rc = GRreadimage(riid, s, NULL, c, buf);
+        printf("T gr read 0 0 1 1 1 1 => ");
+        if (rc == FAIL) printf("fail\n"); else { hk_hex(buf, (size_t)PSZ); printf("\n"); }
+        if (rc != FAIL) hk_fail("gr-stale-id:read", "GRreadimage through a released id succeeded");
+    }
+    else {
+        for (int i = 0; i < PSZ; i++) buf[i] = (uint8_t)(0x90 + i);
+        intn rc = GRwriteimage(riid, s, NULL, c, buf);
+        printf("T gr write 0 0 1 1 1 1 "); hk_hex(buf, (size_t)PSZ); printf(" => %s\n", rc == FAIL ? "fail" : "ok");
+        if (rc != FAIL) { hk_fail("gr-stale-id:write", "GRwriteimage through a released id succeeded"); memcpy(shadow[0][0], buf, (size_t)PSZ); }
+    }
+    hk_stat("stale_probe", 1);
+    if (!sopen[back]) for (back = 0; back < NSLOT && !sopen[back]; back++) ;
+    if (back < NSLOT) use_slot(back); /* else: no id is open right now, the caller selects one */
+}
+
+static void attr_check(const char *when)
+{
+    int32 ix = GRfindattr(riid, "note"), nt = -1, cnt = -1, got[4] = {0, 0, 0, 0};
+    char nm[256];
+    if (!have_attr) return;
+    if (ix == FAIL) { hk_fail("gr-attr-data", "%s: attribute 'note' not found", when); return; }
+    if (GRattrinfo(riid, ix, nm, &nt, &cnt) == FAIL || nt != DFNT_INT32 || cnt != attr_n) { hk_fail("gr-attr-data", "%s: GRattrinfo: nt %d count %d, set int32 x%d", when, (int)nt, (int)cnt, attr_n); return; }
+    if (GRgetattr(riid, ix, got) == FAIL || memcmp(got, attr_shadow, sizeof(int32) * (size_t)attr_n) != 0)
+        hk_fail("gr-attr-data", "%s: value %d.. differs from the one set (%d..), count %d", when, (int)got[0], (int)attr_shadow[0], attr_n);
+}
+
+/* a user attribute of the image, set through one id, read through another and in the next session (implementation-side only) */
+static void op_attr(void)
+{
+    if (hk_chance(55) || !have_attr) {
+        attr_n = (int)hk_range(1, 4);
+        int32 v[4];
+        for (int i = 0; i < attr_n; i++) v[i] = (int32)hk_range(-100000, 100000);
+        pick_slot();
+        if (GRsetattr(riid, "note", DFNT_INT32, attr_n, v) == FAIL) { hk_fail("gr-api:GRsetattr", "note x%d: %s", attr_n, errtxt()); return; }
+        memcpy(attr_shadow, v, sizeof v);
+        have_attr = 1;
+        hk_stat("attr_set", 1);
+    }
+    pick_slot();
+    attr_check("same session");
+}
+
 static void do_open(int create)
 {
     fid = Hopen(fname, create ? DFACC_CREATE : DFACC_RDWR, 0);
@@ -94,7 +209,12 @@ static void do_open(int create)
 
 static void do_close(void)
 {
-    if (riid != FAIL && GRendaccess(riid) == FAIL) { hk_fail(native_case ? "gr-native-alias:GRendaccess" : "gr-api:GRendaccess", "%s", errtxt()); if (native_case) poisoned = 1; }
+    /* release every open id (any order: the last one closes the element's access id), no T lines: `reopen` does it in the model */
+    for (int n = nopen(), st = (int)hk_range(0, NSLOT - 1); n > 0; st++)
+        if (sopen[st % NSLOT]) {
+            sopen[st % NSLOT] = 0; n--;
+            if (GRendaccess(slot[st % NSLOT]) == FAIL) { hk_fail(native_case ? "gr-native-alias:GRendaccess" : "gr-api:GRendaccess", "%s", errtxt()); if (native_case) poisoned = 1; }
+        }
     if (grid != FAIL && GRend(grid) == FAIL) hk_fail("gr-api:GRend", "%s", errtxt());
     if (fid != FAIL && Hclose(fid) == FAIL) hk_fail(poisoned ? "gr-native-alias:Hclose" : "gr-api:Hclose", "%s", errtxt());
     riid = grid = fid = FAIL;
@@ -327,14 +447,17 @@ static void op_reopen(void)
     int32 nimg = -1, nattr = -1;
     if (GRfileinfo(grid, &nimg, &nattr) == FAIL || nimg < 1) hk_fail("gr-api:GRfileinfo", "nimg=%d after reopen", (int)nimg);
     else if (nimg != 1) hk_fail("gr-dup-image", "GRfileinfo reports %d images after reopen, one was created (%s data, palette %d)", (int)nimg, any_write ? "with" : "without", have_lut);
-    riid = GRselect(grid, 0);
+    riid = slot[0] = GRselect(grid, 0);
+    cur = 0;
     if (riid == FAIL) { hk_fail("gr-api:GRselect", "after reopen"); return; }
-    printf("T gr reopen => ok\n");
+    sopen[0] = 1;
+    printf("T gr reopen => ok\n"); /* model: every id released, new session, handle 0 selected and current */
     IMIL = MFGR_INTERLACE_PIXEL; LUTIL = MFGR_INTERLACE_PIXEL;
     /* by design (comment in GRIupdatemeta): the data are always stored pixel-interlaced and the file says so; the
        interlace given to GRcreate describes the write buffers of that session only */
     IL = MFGR_INTERLACE_PIXEL;
     check_info("reopen");
+    attr_check("after reopen");
     hk_stat("reopen", 1);
 }
 
@@ -352,7 +475,10 @@ static void run_case(int k)
     PSZ = NC * ESZ;
     IL = (int)hk_range(0, 2);
     IMIL = MFGR_INTERLACE_PIXEL; LUTIL = MFGR_INTERLACE_PIXEL;
-    have_lut = 0; any_write = 0; poisoned = 0;
+    have_lut = 0; any_write = 0; poisoned = 0; have_attr = 0;
+    for (int i = 0; i < NSLOT; i++) { sopen[i] = 0; slot[i] = FAIL; }
+    cur = 0;
+    multi = hk_chance(55);
     native_case = (NT & DFNT_NATIVE) != 0;
     int mode = (int)hk_range(0, 99);
     plain = mode < 45; compressed = mode >= 45 && mode < 75; chunked = mode >= 75;
@@ -361,18 +487,26 @@ static void run_case(int k)
     memset(shadow, 0, sizeof shadow);
     memset(fillpix, 0, sizeof fillpix);
 
-    printf("INFO mode=%s%s %dx%dx%d nt=%d il=%d\n", plain ? "plain" : compressed ? "comp" : "chunk", "", W, H, NC, (int)NT, IL);
+    printf("INFO mode=%s%s %dx%dx%d nt=%d il=%d\n", plain ? "plain" : compressed ? "comp" : "chunk", multi ? " multi-id" : "", W, H, NC, (int)NT, IL);
     do_open(1);
     if (grid == FAIL) { do_close(); return; }
     int32 dims[2] = {W, H};
-    riid = GRcreate(grid, "img", NC, NT, IL, dims);
-    printf("T gr create %d %d %d %d %d => %s\n", W, H, NC, (int)NT, IL, riid == FAIL ? "fail" : "ok");
+    riid = slot[0] = GRcreate(grid, "img", NC, NT, IL, dims);
+    printf("T gr create %d %d %d %d %d => %s\n", W, H, NC, (int)NT, IL, riid == FAIL ? "fail" : "ok"); /* model: handle 0 open and current */
     if (riid == FAIL) { hk_fail("gr-api:GRcreate", "%dx%d nc=%d nt=%d il=%d", W, H, NC, (int)NT, IL); do_close(); return; }
+    sopen[0] = 1;
     check_info("create");
+    if (multi) {
+        hk_stat("multi_id", 1);
+        /* more ids on the new image before it has any data / fill value / storage layout (or later, in the op loop) */
+        if (hk_chance(60)) select_slot(1);
+        if (hk_chance(25)) select_slot(2);
+    }
 
     int with_fill = hk_chance(60);
     if (with_fill) {
         for (int i = 0; i < PSZ; i++) fillpix[i] = hk_chance(70) ? (uint8_t)(0xE0 + i) : hk_byte();
+        pick_slot();
         if (GRsetattr(riid, FILL_ATTR, NT, NC, fillpix) == FAIL) hk_fail("gr-api:GRsetattr", "FILL_ATTR");
         printf("T gr setfill "); hk_hex(fillpix, (size_t)PSZ); printf(" => ok\n");
     }
@@ -387,6 +521,7 @@ static void run_case(int k)
             case 1: ct = COMP_CODE_DEFLATE; ci.deflate.level = (int)hk_range(1, 9); break;
             default: ct = COMP_CODE_SKPHUFF; ci.skphuff.skp_size = ESZ; break;
         }
+        pick_slot();
         if (compressed) {
             if (GRsetcompress(riid, ct, &ci) == FAIL) hk_fail("gr-api:GRsetcompress", "coder %d", (int)ct);
             printf("T gr setcomp => ok\n");
@@ -407,12 +542,14 @@ static void run_case(int k)
         memset(&cd, 0, sizeof cd);
         cd.chunk_lengths[0] = (int32)hk_range(1, W); cd.chunk_lengths[1] = (int32)hk_range(1, H);
         if (hk_chance(20)) { cd.chunk_lengths[0] = W; cd.chunk_lengths[1] = H; }
+        pick_slot();
         if (GRsetchunk(riid, cd, HDF_CHUNK) == FAIL) hk_fail("gr-api:GRsetchunk", "chunk %dx%d", (int)cd.chunk_lengths[0], (int)cd.chunk_lengths[1]);
         printf("T gr setchunk => ok\n");
         hk_stat("chunk_plain", 1);
     }
     if (chunked && hk_chance(60)) {
         int32 mc = (int32)hk_range(1, 4);
+        pick_slot();
         if (GRsetchunkcache(riid, mc, 0) == FAIL) hk_fail("gr-api:GRsetchunkcache", "maxcache %d", (int)mc);
     }
     if (plain) hk_stat("plain", 1);
@@ -423,10 +560,38 @@ static void run_case(int k)
     if (hk_chance(12)) { op_reopen(); if (riid == FAIL) { do_close(); return; } } /* first write happens in a later session */
     for (int o = 0; o < nops && riid != FAIL; o++) {
         int r = (int)hk_range(0, 99);
+        if (multi && hk_chance(30)) { /* ids come and go while the image is being worked on */
+            int k = (int)hk_range(0, NSLOT - 1);
+            if (!sopen[k]) { select_slot(k); hk_stat("select_more", 1); }
+            else if (nopen() >= 2) {
+                /* release one id, the others keep working (also the current one, also the one that wrote the first data) */
+                if (hk_chance(50)) k = cur;
+                end_slot(k);
+                if (k == cur) { int j = 0; while (!sopen[j]) j++; use_slot(j); }
+                if (hk_chance(35)) probe_stale(k);
+            }
+            else { /* the only open id is released: the element's access id is closed; then the image is selected again */
+                end_slot(k);
+                if (hk_chance(35)) probe_stale(k);
+                int j = hk_chance(50) ? k : (int)hk_range(0, NSLOT - 1);
+                if (!select_slot(j)) { riid = FAIL; break; }
+                use_slot(j); riid = slot[j];
+                hk_stat("reselect", 1);
+            }
+        }
+        pick_slot();
         if (!any_write && r < 70) {
             op_write(0, first_partial);
             if (any_write) {
                 hk_stat("first_write", 1);
+                if (multi && nopen() >= 2 && hk_chance(40)) { /* the id that wrote the first data leaves at once */
+                    int k = cur, j = 0;
+                    end_slot(k);
+                    while (!sopen[j]) j++;
+                    use_slot(j);
+                    hk_stat("first_writer_released", 1);
+                }
+                else pick_slot();
                 op_read(0, 1, "gr-first-write-fill");
                 if (plain && hk_chance(70)) op_raw();
             }
@@ -442,12 +607,13 @@ static void run_case(int k)
         }
         else if (r < 80) { op_reopen(); if (riid != FAIL) op_read(0, 1, "gr-read-data"); }
         else if (r < 84) { /* drop and regain the id inside the session */
-            if (GRendaccess(riid) == FAIL) { hk_fail(native_case ? "gr-native-alias:GRendaccess" : "gr-api:GRendaccess", "%s", errtxt()); if (native_case) poisoned = 1; }
-            riid = GRselect(grid, 0);
-            if (riid == FAIL) hk_fail("gr-api:GRselect", "reselect");
-            else hk_stat("reselect", 1);
+            int k = cur;
+            end_slot(k);
+            if (!select_slot(k)) { riid = FAIL; break; }
+            hk_stat("reselect", 1);
         }
         else if (r < 90) { if (plain) op_raw(); else op_read(0, 1, "gr-read-data"); }
+        else if (r < 93 && multi) op_attr();
         else op_lut();
     }
     if (riid != FAIL) {
